@@ -81,6 +81,33 @@ def _stable_order(flat: List[Term]) -> List[Term]:
     return out
 
 
+_NEG_CMP = {"Compare:NotIn": "Compare:In", "Compare:In": "Compare:NotIn", "Compare:IsNot": "Compare:Is", "Compare:Is": "Compare:IsNot", "Compare:NotEq": "Compare:Eq", "Compare:Eq": "Compare:NotEq"}
+
+
+def _cond(ct: Term, pol: bool) -> Term:
+    """condition term with its polarity folded in: not (a not in b) is a in b, .."""
+    if pol:
+        return ct
+    if ct[0] == "op" and ct[1] in _NEG_CMP and len(ct[2]) == 2:
+        return ("op", _NEG_CMP[ct[1]], ct[2])
+    if ct[0] == "op" and ct[1] == "Not" and len(ct[2]) == 1:
+        return ct[2][0]
+    return ("op", "Not", (ct,))
+
+
+def decision_alternatives(t: Term, conds: Tuple = ()) -> List[Tuple[Tuple, Term]]:
+    """[(conditions, alternative)] of a result rendered as a decision tree: conditions are (term, truth value) pairs
+    collected along ifexp nodes; a plain phi contributes its alternatives without conditions."""
+    if t and t[0] == "ifexp":
+        return decision_alternatives(t[2], conds + ((t[1], True),)) + decision_alternatives(t[3], conds + ((t[1], False),))
+    if t and t[0] == "phi":
+        out: List[Tuple[Tuple, Term]] = []
+        for a in t[1]:
+            out += decision_alternatives(a, conds)
+        return out
+    return [(conds, t)]
+
+
 def upd(t: Term, fields: Dict[str, Term]) -> Term:
     """object t with attribute stores applied."""
     if t[0] == "new":
@@ -509,7 +536,7 @@ class FuncAnalysis:
         alts = []
         for d in sorted(defs, key=lambda d: (d.node.id if d.node else -1, d.path and repr(d.path))):
             td = self._def_term(d, depth)
-            if d.kind == "assign" and d.path == () and d.node is not None:
+            if d.kind == "assign" and d.node is not None and (d.path == () or td[0] in ("app", "new")):
                 td = self._apply_stores(td, name, d, at, depth)
                 if isinstance(d.payload, (ast.List, ast.ListComp)) or (isinstance(d.payload, ast.Call) and isinstance(d.payload.func, ast.Name) and d.payload.func.id in ("list", "bytearray")):
                     td = self._apply_growth(td, name, d, at, depth)
@@ -575,7 +602,7 @@ class FuncAnalysis:
                     ct = self._t(fx, cfg.node_of(fx) if cfg.has_node(fx) else cn, {}, depth)
                 except AnalysisError:
                     ct = ("top", "cond")
-                conds.append(ct if pol else ("op", "Not", (ct,)))
+                conds.append(_cond(ct, pol))
             it = self._t(loop.iter, ln, {}, depth)
             parts.append(("comp", "ListComp", self._t(c.args[0], cn, {}, depth), ((it, tuple(conds)),)))
         t = base
@@ -1045,6 +1072,9 @@ class FuncAnalysis:
         out = subst(rt, binding)
         # normalisations that only matter when a vararg tuple, a bound method or a starred literal is involved
         need = a.vararg is not None or any(isinstance(v, tuple) and len(v) == 3 and v[0] == "attr" and v[2] in ("visit", "generic_visit") for v in binding.values())
+        if not need and callee.cls is None and self.fi.cls is not None and self.fi.pos_params:
+            # a module-level helper that is handed the visitor itself and calls visitor.visit / visitor.generic_visit
+            need = any(v == ("param", self.fi.pos_params[0]) for v in binding.values())
         if not need:
             flag = getattr(fa, "_rt_has_starred", None)
             if flag is None:
